@@ -1151,6 +1151,24 @@ func (c *c10World) opSetMany(h *c10Handle) bool {
 	w.Sig("op:" + shape)
 	w.Count("op_" + shape)
 	c.verify(shape, h, facts)
+	// the same edit list applied once more (a caller that keeps its []PathNode): every addressed field exists now and
+	// is replaced by the value it already has. (Root fields only: a nested value and its address are stale after the first
+	// call, and a list append beyond the end appends again.)
+	if shape == "setmany-root" && t.Chance(1, 3, "sm.again") {
+		op2 := op + " again with the same []PathNode"
+		w.NextOp(op2)
+		facts["op"] = shape + "-again"
+		w.opFacts = facts
+		unguard := c.gcGuard(h, true)
+		err := self.SetMany(pns, c.opts, &h.v, address, path2root...)
+		unguard()
+		w.opFacts = nil
+		if err != nil {
+			w.Failf("valid-op-rejected:"+shape+"-again", facts, "%s returned an error: %v", op2, err)
+		}
+		w.Count("op_" + shape + "_again")
+		c.verify(shape+"-again", h, facts)
+	}
 	return true
 }
 
